@@ -24,6 +24,25 @@ CLAIMED["C07"] = dict(
    note="Selector resolution relies on C08's reference; non-aliasing is decided as address distinctness, not as a Stacked-Borrows verdict.",
    design="§3 C07")
 
+CLAIMED["C04"] = dict(
+   technique="property-based testing: structured terminal-side protocol printer (independent encoder of keys/reports/SGR/OSC/kitty) -> decoder, exact comparison with the denoted events (round-trip against an independent encoder), table sweeps",
+   level="exploration",
+   text="Sequences of 1-8 generated items over every report family with boundary-biased parameters are printed by an independent protocol printer and must decode to exactly the denoted events; every key of the pinned naming table, every mouse button code, every 256-colour index and every DEC mode x status is swept. Sampled over parameter values and concatenations.",
+   note="The key/button naming table and the 16 named colours are pinned from the library (the property defers to the library's table). SGR semantics from ECMA-48/xterm/kitty in refsgr.rs. 12/16-bit colour reduction accepted between truncation and rounding.",
+   design="§3 C04")
+CLAIMED["C18"] = dict(
+   technique="property-based testing: model-based (dictionary model) over generated registration histories with exhaustive lookups after every step; stateful matcher implications; parser totality + print/parse round trip over generated and swept strings",
+   level="exploration",
+   text="Registration/override histories over a colliding key pool are replayed against a BTreeMap model with all 1554 chords of length <=4 looked up after every step; a bounded-exhaustive sweep covers all histories of 4 registrations over 2 keys; every Unicode scalar is pushed through the three parsers in four string positions; grammar-shaped and mutated strings are generated.",
+   note="Matcher is checked only for the two implications the property states. Which strings a parser accepts is not part of the property.",
+   design="§3 C18")
+CLAIMED["C20"] = dict(
+   technique="property-based testing: brute-force nearest-entry oracle over the xterm 256-colour table in the library's linear-light metric, grey-level nearest/monotone oracle, true-colour identity; thorough tier enumerates all 2^24 colours",
+   level="exploration",
+   text="Quick: 16^3 lattice, all palette entries +-1, all greys, and 3.2M generated colours in five colour slots and three depths. Thorough: ALL 2^24 colours x 5 slots x 3 depths (exhaustive).",
+   note="Distance metric computed through the public rasterize conversion in f64; tolerance tau=2e-5 (measured worst excess 2.6e-7 from the library's 6-digit tables); grey midpoint band +-0.01; luma as rasterize defines it.",
+   design="§3 C20")
+
 NOT_APPLICABLE = {}
 
 def main():
